@@ -254,7 +254,7 @@ def run(ctx):
                     "pkg/scan/verif_export_c01.go, command/verif_export_c01.go (build tag verif)"]
     ctx.assumptions += ["in file x ports mode an address entry stands for one target per port (one error per port pass for a bad "
                         "entry), the multiplicity C01 uses"]
-    gen_ok, model_ok, proof_ok = T.gen_and_prove(ctx, "Spec/C13.vo", "Properties/C13.v")
+    gen_ok, model_ok, proof_ok = T.gen_and_prove(ctx, "Spec/C13.vo", "Properties/C13.v", more=["Properties/C13Wire.v"])
     rows = []
     if ctx.harness_build("c13"):
         args = ["-out", "cases.jsonl", "-seed", ctx.seed]
